@@ -24,8 +24,15 @@ func GenValue(md protoreflect.MessageDescriptor, mode int, seed int64, known map
 	return g.msg(md, 0)
 }
 
+// ModeSparse: every message-typed field (singular, one list element, one map entry, the first
+// message member of a oneof) is PRESENT, every scalar, optional scalar and well-known-type field is
+// left unset: messages that are there but say nothing.
+const ModeSparse = 99
+
+func (g *genCtx) random() bool { return g.mode >= 3 && g.mode != ModeSparse }
+
 func (g *genCtx) pick(n int) int {
-	if g.mode >= 3 {
+	if g.random() {
 		return g.rnd.Intn(n)
 	}
 	return (g.mode - 1) % n
@@ -33,7 +40,7 @@ func (g *genCtx) pick(n int) int {
 
 func (g *genCtx) scalar(fd protoreflect.FieldDescriptor, i int) protoreflect.Value {
 	b := g.mode == 2
-	r := g.mode >= 3
+	r := g.random()
 	switch fd.Kind() {
 	case protoreflect.BoolKind:
 		return protoreflect.ValueOfBool(!b || i%2 == 1)
@@ -129,7 +136,7 @@ func (g *genCtx) wkt(md protoreflect.MessageDescriptor, i int) *dynamicpb.Messag
 		if g.mode == 2 {
 			sec, nanos = []int64{0, -1, 253402300799}[i%3], []int32{0, 999999999, 500000000}[i%3]
 		}
-		if g.mode >= 3 {
+		if g.random() {
 			sec, nanos = g.rnd.Int63n(4e9), int32(g.rnd.Intn(1e9))
 		}
 		m.Set(md.Fields().ByName("seconds"), protoreflect.ValueOfInt64(sec))
@@ -169,10 +176,13 @@ func (g *genCtx) msg(md protoreflect.MessageDescriptor, depth int) *dynamicpb.Me
 		if o.IsSynthetic() {
 			continue
 		}
-		if g.mode >= 3 && g.rnd.Intn(4) == 0 {
+		if g.random() && g.rnd.Intn(4) == 0 {
 			continue
 		}
 		chosen[o.FullName()] = o.Fields().Get(g.pick(o.Fields().Len())).Number()
+	}
+	if g.mode == ModeSparse {
+		return g.sparse(md, depth)
 	}
 	fds := md.Fields()
 	for i := 0; i < fds.Len(); i++ {
@@ -182,7 +192,7 @@ func (g *genCtx) msg(md protoreflect.MessageDescriptor, depth int) *dynamicpb.Me
 				continue
 			}
 		}
-		if g.mode >= 3 && g.rnd.Intn(3) == 0 {
+		if g.random() && g.rnd.Intn(3) == 0 {
 			continue
 		}
 		switch {
@@ -230,6 +240,42 @@ func (g *genCtx) msg(md protoreflect.MessageDescriptor, depth int) *dynamicpb.Me
 			}
 			if v, ok := g.single(fd, depth, i); ok {
 				m.Set(fd, v)
+			}
+		}
+	}
+	return m
+}
+
+func (g *genCtx) sparse(md protoreflect.MessageDescriptor, depth int) *dynamicpb.Message {
+	m := dynamicpb.NewMessage(md)
+	if depth >= 3 {
+		return m
+	}
+	oneofDone := map[protoreflect.FullName]bool{}
+	fds := md.Fields()
+	for i := 0; i < fds.Len(); i++ {
+		fd := fds.Get(i)
+		own := func(d protoreflect.FieldDescriptor) bool {
+			return d.Kind() == protoreflect.MessageKind && g.known[string(d.Message().FullName())]
+		}
+		if o := fd.ContainingOneof(); o != nil && !o.IsSynthetic() {
+			if oneofDone[o.FullName()] || !own(fd) {
+				continue
+			}
+			oneofDone[o.FullName()] = true
+		}
+		switch {
+		case fd.IsMap():
+			if own(fd.MapValue()) && fd.MapKey().Kind() == protoreflect.StringKind {
+				m.Mutable(fd).Map().Set(protoreflect.ValueOfString("k1").MapKey(), protoreflect.ValueOfMessage(g.sparse(fd.MapValue().Message(), depth+1)))
+			}
+		case fd.IsList():
+			if own(fd) {
+				m.Mutable(fd).List().Append(protoreflect.ValueOfMessage(g.sparse(fd.Message(), depth+1)))
+			}
+		default:
+			if own(fd) {
+				m.Set(fd, protoreflect.ValueOfMessage(g.sparse(fd.Message(), depth+1)))
 			}
 		}
 	}
